@@ -765,6 +765,20 @@ fn group_layer(ctx: &mut Ctx) {
             same_g1(ctx, "point_sub", "P_minus_P_diff_Z", guard(|| lp.point_sub(&lp2)), &None, w.clone());
             same_g1(ctx, "point_double", "finite", guard(|| lp.point_double()), &r9::g1_add(&sp, &sp), w.clone());
             same_g1(ctx, "point_neg", "finite", guard(|| lp.point_neg()), &Some(na.clone()), w.clone());
+            // -P stored with the SAME X and Y words as P and Z negated; P and Q stored with the same Z; (zeta x, y): same y
+            {
+                let lnz = r9::lib_g1(&na, &(&pr.p - &l1));
+                let lqz = r9::lib_g1(&qa, &l1);
+                let zeta = pr.c_pows[4].clone();
+                let za = ((&pa.0 * &zeta) % &pr.p, pa.1.clone());
+                let (lz1, lz3) = (r9::lib_g1(&za, &l1), r9::lib_g1(&za, &l3));
+                same_g1(ctx, "point_add", "P_plus_negP_same_stored_XY", guard(|| lp.point_add(&lnz)), &None, w.clone());
+                same_g1(ctx, "point_add", "P_ne_Q_same_stored_Z", guard(|| lp.point_add(&lqz)), &r9::g1_add(&sp, &Some(qa.clone())), w.clone());
+                same_g1(ctx, "point_add", "P_plus_zetaP_same_y_same_Z", guard(|| lp.point_add(&lz1)), &r9::g1_add(&sp, &Some(za.clone())), w.clone());
+                same_g1(ctx, "point_add", "P_plus_zetaP_same_y_diff_Z", guard(|| lp.point_add(&lz3)), &r9::g1_add(&sp, &Some(za.clone())), w.clone());
+                same_g1(ctx, "point_sub", "P_minus_zetaP_same_y", guard(|| lp.point_sub(&lz3)), &r9::g1_add(&sp, &r9::g1_neg(&Some(za.clone()))), w.clone());
+                same_g1(ctx, "point_double", "negP_same_stored_XY_right_after_P", guard(|| { let _ = lp.point_double(); lnz.point_double() }), &r9::g1_add(&Some(na.clone()), &Some(na.clone())), w.clone());
+            }
             let inf1 = Point::zero();
             let inf2 = Point { x: lp.x, y: lq.y, z: [0; 4] };
             for (kk, inf) in [(0, &inf1), (1, &inf2)] {
@@ -825,6 +839,10 @@ fn group_layer(ctx: &mut Ctx) {
                 same_g1(ctx, "point_mul", cls, guard(|| lp.point_mul(&lk)), &r9::g1_mul(kv, &sp), json!({"P": g1_hex(&pa), "Z": hex::encode(r9::b32(&l1)), "k": hl(&lk)}));
                 same_g1(ctx, "point_mul", "consecutive_negated_base", guard(|| ln1.point_mul(&lk)), &r9::g1_neg(&r9::g1_mul(kv, &sp)), json!({"P": "-P", "k": hl(&lk)}));
                 same_g1(ctx, "point_mul", "consecutive_same_point_other_Z", guard(|| lp2.point_mul(&lk)), &r9::g1_mul(kv, &sp), json!({"P": "P'", "k": hl(&lk)}));
+                {
+                    let lnz = r9::lib_g1(&na, &(&pr.p - &l1));
+                    same_g1(ctx, "point_mul", "consecutive_negated_base_same_stored_XY", guard(|| { let _ = lp.point_mul(&lk); lnz.point_mul(&lk) }), &r9::g1_neg(&r9::g1_mul(kv, &sp)), json!({"P": "(X, Y, -Z)", "k": hl(&lk)}));
+                }
                 same_g1(ctx, "g_mul", cls, guard(|| Point::g_mul(&lk)), &r9::g1_mul(kv, &r9::g1_gen()), json!({"k": hl(&lk)}));
             }
         }
@@ -897,6 +915,10 @@ fn group_layer(ctx: &mut Ctx) {
                 same_g2(ctx, "point_mul", cls, guard(|| lp.point_mul(&lk)), &r9::g2_mul(kv, &sp), json!({"case": w, "k": hl(&lk)}));
                 if i % 2 == 0 {
                     same_g2(ctx, "point_mul", "consecutive_negated_base", guard(|| ln1.point_mul(&lk)), &r9::g2_neg(&r9::g2_mul(kv, &sp)), json!({"case": w, "k": hl(&lk)}));
+                }
+                if i % 2 == 1 {
+                    let lnz = r9::lib_g2(&na, &r9::f2neg(&l1));
+                    same_g2(ctx, "point_mul", "consecutive_negated_base_same_stored_XY", guard(|| { let _ = lp.point_mul(&lk); lnz.point_mul(&lk) }), &r9::g2_neg(&r9::g2_mul(kv, &sp)), json!({"case": w, "k": hl(&lk)}));
                 }
                 if i % 3 == 0 {
                     same_g2(ctx, "g_mul", cls, guard(|| TwistPoint::g_mul(&lk)), &r9::g2_mul(kv, &r9::g2_gen()), json!({"k": hl(&lk)}));
